@@ -47,8 +47,8 @@ def install():
             el, ea, eo = I.transpose(l, al, o, name, direction == 'up')
             if abs(ea) <= 2 and res != I.spell(el, ea, eo):
                 LOG['arith_problems'].append(f'internal transpose({input_encoding!r}, {name}, {direction}) = {res!r}, model {I.spell(el, ea, eo)!r}')
-        except Exception as e:  # the model could not interpret the call: record, never raise into kernpy
-            LOG['arith_problems'].append(f'internal transpose({input_encoding!r}, {interval}): shadow could not interpret: {e}')
+        except Exception:  # the model has no opinion on this call (unknown spelling / interval): counted only
+            LOG['uninterpretable'] = LOG.get('uninterpretable', 0) + 1
         return res
     DOC.transpose = transpose
     for cls in (PM.HumdrumPitchExporter, PM.AmericanPitchExporter):
